@@ -317,7 +317,6 @@ impl<'data> ProguardCache<'data> {
         // At this point, we know how many members/members-by-params each class has because we kept count,
         // but we don't know where each class's entries start. We'll rectify that below.
 
-        let mut writer = watto::Writer::new(writer);
         let string_bytes = string_table.into_bytes();
 
         let num_members = classes.values().map(|c| c.class.members_len).sum::<u32>();
@@ -336,7 +335,7 @@ impl<'data> ProguardCache<'data> {
         };
 
         writer.write_all(header.as_bytes())?;
-        writer.align_to(8)?;
+        write_padding(writer, header.as_bytes().len())?;
 
         let mut members = Vec::new();
         let mut members_by_params = Vec::new();
@@ -353,13 +352,16 @@ impl<'data> ProguardCache<'data> {
             );
             writer.write_all(c.class.as_bytes())?;
         }
-        writer.align_to(8)?;
+        write_padding(
+            writer,
+            header.num_classes as usize * std::mem::size_of::<Class>(),
+        )?;
 
         writer.write_all(members.as_bytes())?;
-        writer.align_to(8)?;
+        write_padding(writer, members.as_bytes().len())?;
 
         writer.write_all(members_by_params.as_bytes())?;
-        writer.align_to(8)?;
+        write_padding(writer, members_by_params.as_bytes().len())?;
 
         writer.write_all(&string_bytes)?;
 
@@ -410,6 +412,15 @@ impl<'data> ProguardCache<'data> {
     pub(crate) fn read_string(&self, offset: u32) -> Result<&'data str, watto::ReadStringError> {
         StringTable::read(self.string_bytes, offset as usize)
     }
+}
+
+/// Pads a section of `len` bytes with zeroes up to the next multiple of 8.
+///
+/// Every section starts 8-byte aligned, so aligning its length aligns the position.
+/// Uses `write_all`, so a sink that accepts fewer bytes than offered cannot truncate the padding.
+fn write_padding<W: Write>(writer: &mut W, len: usize) -> std::io::Result<()> {
+    const PADDING: [u8; 8] = [0; 8];
+    writer.write_all(&PADDING[..(8 - len % 8) % 8])
 }
 
 /// A class that is currently being constructed in the course of writing a [`ProguardCache`].
